@@ -12,7 +12,9 @@ Inductive outspec :=
          extensions; empty request context; optionally cut to the first `take` bytes; then `extra` appended *)
 | ORaw (b : bytes).
 
-Definition payload (n a b : N) : bytes := map (fun j => (a + j * b) mod 256) (nrange (N.to_nat n)).
+Fixpoint payload_from (k : nat) (x b : N) : bytes :=   (* x = (a + j*b) mod 256, kept reduced: linear time *)
+  match k with O => [] | S k' => x :: payload_from k' ((x + b) mod 256) b end.
+Definition payload (n a b : N) : bytes := payload_from (N.to_nat n) (a mod 256) b.
 Definition entry (e : N * N * N) : bytes := let '(n, a, b) := e in dbe24 n ++ payload n a b ++ [0; 0].
 Definition build (entries : list (N * N * N)) : bytes :=
   let body := concat (map entry entries) in 0 :: dbe24 (dlen body) ++ body.
